@@ -135,7 +135,9 @@ where
     // itself contain something like `+1`.
     let lines_pattern = Regex::new(r"^@@.*?\+(\d+)(,(\d+))?").unwrap();
 
-    let file_filter = Regex::new(&format!("^{file_filter}$"))?;
+    // The filter has to match the whole path, whatever its top-level operator is: without the
+    // group, `a|b` would anchor `a` at the start only and `b` at the end only.
+    let file_filter = Regex::new(&format!("^(?:{file_filter})$"))?;
 
     let mut current_file = None;
 
